@@ -52,6 +52,11 @@ Definition append_mini_sector : M unit :=
   let start := d_start r in
   let mlen := d_len r in
   (if negb (mlen mod MINI_SECTOR_LEN =? 0) then panic 504 else ret tt) ;;
+  (* fix b10c443: the root entry must be able to record the new length
+     (max_stream_len: a version 3 entry keeps 32 bits); refused before anything changes *)
+  do s0 <- get;
+  (if N.min (MAX_REGULAR_SECTOR * slen s0) (stream_len_mask (ver s0)) <? mlen + MINI_SECTOR_LEN
+   then fail EInvalidInput else ret tt) ;;
   do new_start <-
     (if start =? END_OF_CHAIN then
        (if negb (mlen =? 0) then fail EInvalidData else ret tt) ;;
